@@ -139,6 +139,9 @@ class FakeOS:
 
     def __getattr__(self, name):
         if name in _PASS:
+            arch = getattr(self._w, "oflags", None)
+            if arch and name in arch:
+                return arch[name]          # open(2) flag numbering of another Linux port (mips, alpha, sparc ...)
             return getattr(real_os, name)
         raise EscapeError("os.%s not routed" % name)
 
